@@ -21,6 +21,7 @@ def run(ctx):
     ctx.do(S.rule_sh8)
     ctx.do(D.rule_t4, [LIE, HOM])
     ctx.do(D.rule_t3, [LIE])
+    ctx.do(NP.rule_mk2, [LIE])
     ctx.do(NP.rule_clo1, [LIE, HOM])
     ctx.do(NP.rule_stk1, [LIE, HOM])
     ctx.do(D.rule_lk1, [LIE])
